@@ -61,6 +61,9 @@ func (n *Network) notify() {
 // Cur is the network used by the package-level Dial/Listen functions.
 var Cur *Network
 
+// OSConnectTimeout is how long an unanswered TCP connect takes to fail.
+const OSConnectTimeout = 127 * time.Second
+
 const (
 	DialOK = iota
 	DialRefuse
@@ -603,9 +606,12 @@ func (n *Network) Dial(network, address string, timeout time.Duration) (net.Conn
 	fate := n.dialFate[key]
 	if fate == DialBlackhole {
 		var dl deadline
-		if timeout > 0 {
-			dl.set(n, time.Now().Add(timeout))
+		if timeout <= 0 || timeout > OSConnectTimeout {
+			// a connect that nobody answers fails with ETIMEDOUT once the kernel gives up
+			// (Linux: tcp_syn_retries=6, about 127 s)
+			timeout = OSConnectTimeout
 		}
+		dl.set(n, time.Now().Add(timeout))
 		n.logf("dial %s: black hole", key)
 		for !dl.expired() && !n.down {
 			n.cond.Wait()
